@@ -1,11 +1,40 @@
-(* C13 - DSL operators and rewrite helpers are identities of probability calculus. *)
-From Coq Require Import List Bool.
-From Y0 Require Import Base.ListSet Dsl.Syntax Dsl.Build Dsl.Canon Proofs.DslP.
+(* C13 - DSL operators and rewrite helpers are identities of probability calculus.
+   [eval m e r] is the value of expression e in model m under the value assignment r (Dsl/Sem.v); a model gives
+   the value of every probability term, so the theorems hold for every distribution. Division is total on Q
+   (x / 0 = 0); Fraction.simplify, which cancels factors, carries the hypothesis that the denominator is not zero. *)
+From Coq Require Import List Bool QArith.
+From Y0 Require Import Base.ListSet Dsl.Syntax Dsl.Build Dsl.Canon Dsl.Sem Proofs.DslP Proofs.SemP.
 Import ListNotations.
+Open Scope Q_scope.
 
-(* Proved so far: the chain-rule expansion yields only single-child conditional factors, for every joint or
-   conditional probability, every ordering and both reorder modes. The semantic identities are checked on every
-   run by the exact-arithmetic oracle; their proofs need Dsl/Sem.v (planned). *)
+Theorem C13_multiplication m r a b : eval m (mul a b) r == eval m a r * eval m b r.
+Proof. exact (eval_mul m r a b). Qed.
+
+Theorem C13_division m r a b : eval m (truediv a b) r == eval m a r / eval m b r.
+Proof. exact (eval_truediv m r b a). Qed.
+
+Theorem C13_product_constructor m r es : eval m (prod_safe es) r == qprod (eval_list m es r).
+Proof. exact (eval_prod_safe m r es). Qed.
+
+Theorem C13_sum_constructor m e rs r :
+  existsb bad_range (upgrade_ordering rs) = false ->
+  eval m (sum_safe e rs false) r == sum_over m (map vn (upgrade_ordering rs)) (eval m e) r.
+Proof. exact (eval_sum_safe m e rs r). Qed.
+
+Theorem C13_marginalisation m e rs r :
+  existsb bad_range (upgrade_ordering (map get_base rs)) = false ->
+  eval m (marginalize e rs) r == sum_over m (map vn (upgrade_ordering (map get_base rs))) (eval m e) r.
+Proof. exact (eval_marginalize m e rs r). Qed.
+
+Theorem C13_normalised_marginalisation m e rs r :
+  existsb bad_range (upgrade_ordering (map get_base rs)) = false ->
+  eval m (normalize_marginalize e rs) r == eval m e r / sum_over m (map vn (upgrade_ordering (map get_base rs))) (eval m e) r.
+Proof. exact (eval_normalize_marginalize m e rs r). Qed.
+
+Theorem C13_fraction_simplification m r n d :
+  ~ eval m d r == 0 -> eval m (frac_simplify (EFrac n d)) r == eval m n r / eval m d r.
+Proof. exact (eval_frac_simplify m r n d). Qed.
+
 Theorem C13_chain_expansion_yields_single_child_factors pop ch pa reorder ordering :
   ch <> [] ->
   match chain_expand (EProb pop ch pa) reorder ordering with
@@ -14,4 +43,11 @@ Theorem C13_chain_expansion_yields_single_child_factors pop ch pa reorder orderi
   end.
 Proof. exact (chain_expand_single_children pop ch pa reorder ordering). Qed.
 
+Print Assumptions C13_multiplication.
+Print Assumptions C13_division.
+Print Assumptions C13_product_constructor.
+Print Assumptions C13_sum_constructor.
+Print Assumptions C13_marginalisation.
+Print Assumptions C13_normalised_marginalisation.
+Print Assumptions C13_fraction_simplification.
 Print Assumptions C13_chain_expansion_yields_single_child_factors.
